@@ -1,3 +1,4 @@
+import os
 """Rule framework: contexts, results, known findings, evidence."""
 import json, os, sys, time, re
 from facts import build_facts, load_facts, VERIF, WORK, REPO
@@ -75,8 +76,10 @@ class Ctx:
     def trace(self, entry, const_args=None):
         key = (entry.path, tuple(sorted((const_args or {}).items())))
         if key not in self._traces:
+            # walking the folded views instead of the functions as written was tried (JL_TRACE_VIEWS=1) and rejected: in a merged commit body the flow-insensitive slice of a
+            # written buffer reaches the checksum call, data writes are classified as header writes, and 60 obligations fail on the unchanged tree
             self._traces[key] = Trace(self.facts, entry, self.E.classify, classify_stmt=self.E.classify_stmt,
-                                      const_args=const_args)
+                                      const_args=const_args, view=(self.x if os.environ.get('JL_TRACE_VIEWS', '0') == '1' else None))
         return self._traces[key]
 
     def need(self, *names):
